@@ -428,6 +428,13 @@ def real_binary(ctx, quick, rng, kept):
                      "include %s\n" % fmt, "subninja %s\n" % fmt, "pool %s\n  depth = %s\n" % (fmt, fmt)],
         "depfile": ["%s: %s\n" % (fmt, fmt), "out %s: in\n" % fmt, "out: in\nin %s: x\n" % fmt, "%s\n" % fmt],
     }
+    # the response file name at every small offset of the command line, with and without the options `-t compdb -x` looks for in
+    # front of it (and with those options elsewhere in the command): offsets are compared with unsigned arithmetic there
+    for L in list(range(0, 18)) + [30]:
+        for tail in ("", " -f other", " --option-file=other", " @other"):
+            for lead in ("", "@", "-f ", "--option-file="):
+                pre = ("p" * max(0, L - len(lead))) + lead
+                extra["manifest"].append("rule r\n  command = %s$out.rsp%s\n  rspfile = $out.rsp\n  rspfile_content = $in_newline\nbuild x: r in in2\nbuild out: r x\n" % (pre, tail))
     k = 0
     for t, texts in extra.items():
         os.makedirs(os.path.join("/dev/shm", "nfuzz-%d-extra" % os.getpid()), exist_ok=True)
@@ -470,7 +477,10 @@ def real_binary(ctx, quick, rng, kept):
             env["TERM"] = "dumb"
             for args in ([], ["-n"], ["-t", "clean"], ["-t", "deps"], ["-t", "recompact"], ["-t", "cleandead"], ["-t", "commands"],
                          ["-t", "query", "out"], ["-t", "query", "out2", "x"], ["-t", "graph"], ["-t", "inputs", "x"], ["-t", "targets", "all"],
-                         ["-t", "compdb"], ["-t", "missingdeps"], ["-d", "explain", "-n", "x"]):
+                         ["-t", "compdb"], ["-t", "missingdeps"], ["-d", "explain", "-n", "x"], ["-t", "compdb", "-x"], ["-t", "compdb", "-x", "r", "cc"],
+                         ["-t", "compdb-targets", "x"], ["-t", "multi-inputs", "x", "out"], ["-t", "inputs", "--dependency-order", "x"],
+                         ["-t", "commands", "-s", "x"], ["-t", "rules", "-d"], ["-t", "targets", "rule"], ["-t", "targets", "depth", "3"],
+                         ["-t", "restat"], ["-t", "clean", "-r", "r"], ["-t", "clean", "x"], ["-d", "explain", "-d", "stats", "x"]):
                 try:
                     p = subprocess.run([ninja, "-j2"] + args if not args or args[0] != "-t" else [ninja] + args, cwd=d, env=env,
                                        stdout=subprocess.PIPE, stderr=subprocess.PIPE, timeout=60)
